@@ -112,7 +112,7 @@ def run_k_obligations(prop, obls, tier, jobs):
         t0 = time.time()
         try:
             m, secs = K.codegen(cdir, crate + "-" + prop, os.path.join(BUILD, "logs", prop, "codegen-%s.log" % crate),
-                                registry.CRATES[crate].get("kani_args", []) +
+                                registry.CRATES[crate].get("kani_args", []) + (["-Z", "stubbing"] if any("stubbing" in o.get("kani_args", []) for o in lst) else []) +
                                 sum([["--harness", x] for x in sorted({o["harness"].split("::")[0] + "::" for o in lst})], []))
         except Exception as e:
             log("INCONCLUSIVE: codegen of %s failed: %s" % (crate, str(e)[-1500:]))
